@@ -21,7 +21,8 @@ RULE = (
 )
 REQUIRED = ["iso_checked", "iso_true", "iso_false_same_size", "mappings_checked", "mappings_strictly_smaller_pattern_found",
             "boolean_subgraph_checked", "filter_differentials", "history_queries", "history_cache_shared_hits",
-            "hcount_asymmetric_pairs", "graph_morphism_checked", "quick_prefilter_checked", "mono_not_induced_pairs"]
+            "hcount_asymmetric_pairs", "graph_morphism_checked", "quick_prefilter_checked", "mono_not_induced_pairs",
+            "pairs_with_mixed_numeric_label_types"]
 ASSUMPTIONS = [
     "isomorphic(a, b) with hcount annotations: first argument is the host (a.hcount >= b.hcount) for equal sizes, as documented",
     "get_mappings: every returned map must be a valid label-preserving monomorphism; non-empty is demanded when the pattern is induced-contained",
@@ -258,6 +259,20 @@ def one_edit(rng, G):
     return H
 
 
+def retype(G, rng):
+    """equal labels written with another numeric type (1 vs 1.0, as GML-read vs RDKit-derived graphs do)."""
+    H = G.copy()
+    for _, _, d in H.edges(data=True):
+        o = d.get("order")
+        if isinstance(o, (int, float)) and float(o).is_integer():
+            d["order"] = int(o) if rng.random() < 0.5 else float(o)
+    for _, d in H.nodes(data=True):
+        c = d.get("charge")
+        if isinstance(c, int) and rng.random() < 0.3:
+            d["charge"] = float(c)
+    return H
+
+
 def run(ctx):
     rng = ctx.rng
     nmax = 3 if ctx.quick else 4
@@ -301,7 +316,10 @@ def run(ctx):
             Bg, _ = WG.scramble(WG.planted_pattern(rng, A, rng.randint(1, max(1, A.number_of_nodes() - 1))), rng)
         else:
             Bg = WG.random_mol(rng, rng.randint(2, 8), p_charge=0.2)
-        check_pair(ctx, A, Bg, "random pairs", ("rnd", WG.describe(A), WG.describe(Bg)), light=(t % 2 == 0))
+        if t % 3 == 0:
+            A, Bg = retype(A, rng), retype(Bg, rng)
+            ctx.count("pairs_with_mixed_numeric_label_types")
+        check_pair(ctx, A, Bg, "random pairs", ("rnd", repr(WG.describe(A)), repr(WG.describe(Bg))), light=(t % 2 == 0))
         ctx.count("random_pairs")
     # query histories on shared objects
     n = 250 if ctx.quick else 3000
